@@ -11,6 +11,7 @@ import "gopkg.in/yaml.v3"
 func init() {
 	vpRegister("c07_graph", vpH_c07_graph)
 	vpRegister("c07_merge_chain", vpH_c07_merge_chain)
+	vpRegister("c07_typed_merge", vpH_c07_typed_merge)
 }
 
 func vpScalar(v string) *yaml.Node {
@@ -42,11 +43,39 @@ type vpRefState struct {
 	steps int
 }
 
+// typed (non-string) keys: spelling in the document and the canonical string
+// the decoder is documented to use for them
+type vpTypedKey struct{ tag, spell, canon string }
+
+var vpTypedKeys = []vpTypedKey{
+	{"!!int", "0x1F", "31"},
+	{"!!bool", "True", "true"},
+	{"!!float", "1.5", "1.500000e+00"},
+	{"!!int", "31", "31"},
+}
+
 func vpKeyString(k *yaml.Node) string {
 	if k.Kind == yaml.AliasNode {
-		return k.Alias.Value
+		k = k.Alias
+	}
+	if k.Tag == "!!int" || k.Tag == "!!bool" || k.Tag == "!!float" {
+		for _, t := range vpTypedKeys {
+			if t.tag == k.Tag && t.spell == k.Value {
+				return t.canon
+			}
+		}
 	}
 	return k.Value
+}
+
+// vpChainKey draws a key node for the merge-chain documents and its canonical string.
+func vpChainKey() (*yaml.Node, string) {
+	if vpParam("typedkeys") != 0 && vpBool() {
+		t := vpTypedKeys[vpInt(0, len(vpTypedKeys)-1)]
+		return &yaml.Node{Kind: yaml.ScalarNode, Tag: t.tag, Value: t.spell}, t.canon
+	}
+	k := vpStrUpTo(1, "a-b")
+	return vpScalar(k), k
 }
 
 type vpEntry2 struct {
@@ -322,14 +351,49 @@ func vpFillChain(m *yaml.Node, other []*yaml.Node) {
 			}
 		}
 		if i < n {
-			k := vpStrUpTo(1, "a-b")
+			kn, k := vpChainKey()
 			for _, o := range keys {
 				vpAssume(o != k)
 			}
 			keys = append(keys, k)
-			m.Content = append(m.Content, vpScalar(k), vpScalar(vpStr(1, "x-y")))
+			m.Content = append(m.Content, kn, vpScalar(vpStr(1, "x-y")))
 		}
 	}
+}
+
+// typed keys under a merge: explicit-beats-merged and the merge position are
+// decided on the canonical key, whatever the spelling (0x1F and 31 are one key)
+func vpH_c07_typed_merge() {
+	pick := func(taken []string) (*yaml.Node, string) {
+		t := vpTypedKeys[vpInt(0, len(vpTypedKeys)-1)]
+		for _, o := range taken {
+			vpAssume(o != t.canon)
+		}
+		return &yaml.Node{Kind: yaml.ScalarNode, Tag: t.tag, Value: t.spell}, t.canon
+	}
+	a := vpMapping()
+	a.Anchor = "a"
+	var ka []string
+	for i, n := 0, vpInt(1, 2); i < n; i++ {
+		kn, k := pick(ka)
+		ka = append(ka, k)
+		a.Content = append(a.Content, kn, vpScalar("x"))
+	}
+	root := vpMapping()
+	nr := vpInt(0, 2)
+	mergeAt := vpInt(0, nr)
+	var kr []string
+	for i := 0; i <= nr; i++ {
+		if i == mergeAt {
+			root.Content = append(root.Content, vpMergeKey(), vpAlias(a))
+		}
+		if i < nr {
+			kn, k := pick(kr)
+			kr = append(kr, k)
+			root.Content = append(root.Content, kn, vpScalar("y"))
+		}
+	}
+	vpCheckDecode(root)
 }
 
 func vpH_c07_merge_chain() {
